@@ -156,6 +156,28 @@ pub fn run(name: &str) -> R {
             });
             Ok(format!("create+write returned {:?} (no panic)", r.map_err(|e| e.to_string())))
         }
+        // F11 (C11): a stream entry may claim a length without having a start sector; open accepts it, the write-back
+        // and resize paths assert that such a stream is empty
+        "c11_stream_len_without_start_sector" => {
+            let mut out = Vec::new();
+            for grow in [false, true] {
+                let mut c = CompoundFile::create_with_version(Version::V3, Cursor::new(Vec::new())).unwrap();
+                c.create_stream("/s").unwrap();
+                let mut img = c.into_inner().into_inner();
+                // directory sector is sector 1; entry 1 is "/s": stream_len field at +120
+                img[2 * 512 + 128 + 120..2 * 512 + 128 + 128].copy_from_slice(&100u64.to_le_bytes());
+                let mut c = match CompoundFile::open(Cursor::new(img)) {
+                    Ok(c) => c,
+                    Err(e) => return Some(Ok(format!("open refused: {e}"))),
+                };
+                let r = c.open_stream("/s").and_then(|mut s| {
+                    if grow { s.set_len(200)?; } else { s.write_all(&[7u8; 10])?; }
+                    s.flush()
+                });
+                out.push(format!("{} returned {:?}", if grow { "set_len" } else { "write+flush" }, r.map_err(|e| e.to_string())));
+            }
+            Ok(format!("{} (no panic)", out.join("; ")))
+        }
         // F9 (C15): a create / write 100 bytes / remove cycle must not grow the file from the second repetition on
         "c15_small_stream_cycle_does_not_grow" => {
             let mut out = Vec::new();
